@@ -501,6 +501,12 @@ func opText(o fd.Op) string {
 	if o.HookFail >= 0 {
 		s += fmt.Sprintf("+hookfail@%d", o.HookFail)
 	}
+	if o.HookCancelAt > 0 {
+		s += fmt.Sprintf("+hookcancel@%d", o.HookCancelAt-1)
+	}
+	if o.PreCancel {
+		s += "+precancel"
+	}
 	return strings.ReplaceAll(s, " ", ",")
 }
 
@@ -529,6 +535,9 @@ func signature(name string, h *Hist) string {
 	}
 	if h.Cfg.FilterIPs {
 		s += ":filterips"
+	}
+	if h.Cfg.Trusted {
+		s += ":trustedstorage"
 	}
 	if h.Cfg.Latest0 != 0 {
 		s += fmt.Sprintf(":latest%d", h.Cfg.Latest0)
@@ -567,8 +576,10 @@ func coqFault(f fd.Fault, kind string) string {
 		return "FTransport" // a closed TCP connection is not a libp2p stream reset
 	case "transport", "tcpreset":
 		return "FTransport"
-	case "corrupt":
-		return "FCorrupt"
+	case "corrupt", "corruptp":
+		return "FCorrupt" // a body that does not hash to the CID, parseable or not
+	case "okcancel":
+		return "FOkCancel"
 	case "truncated":
 		return "FTruncated"
 	case "stallhdr":
@@ -592,9 +603,11 @@ func coqOp(o fd.Op, kind string) string {
 	}
 	hf := "None"
 	if o.HookFail >= 0 {
-		hf = "(Some " + vlib.CoqNat(o.HookFail) + ")"
+		hf = "(Some (HFail " + vlib.CoqNat(o.HookFail) + "))"
+	} else if o.HookCancelAt > 0 {
+		hf = "(Some (HCancel " + vlib.CoqNat(o.HookCancelAt-1) + "))"
 	}
-	return fmt.Sprintf("(Build_op %s %s %s %s %s %s)", m, coqNatList(o.Addrs), vlib.CoqNat(o.Head), vlib.CoqList(fs), vlib.CoqBool(o.DiscFail), hf)
+	return fmt.Sprintf("(Build_op %s %s %s %s %s %s %s)", m, coqNatList(o.Addrs), vlib.CoqNat(o.Head), vlib.CoqList(fs), vlib.CoqBool(o.DiscFail), hf, vlib.CoqBool(o.PreCancel))
 }
 
 func coqObs(op fd.Op, o fd.Obs) string {
